@@ -23,10 +23,10 @@ BUILDS["asan"] = dict(target_dir="asan", sanitizer=True, toolchain=["+nightly"],
                       env={"RUSTFLAGS": "-Zsanitizer=address -Cforce-frame-pointers=yes"}, run_env={"ASAN_OPTIONS": "detect_leaks=0:abort_on_error=1:halt_on_error=1:allocator_may_return_null=1:max_allocation_size_mb=3000", "VH_SANITIZER": "asan"})
 # ThreadSanitizer needs an instrumented std
 BUILDS["tsan"] = dict(target_dir="tsan", sanitizer=True, toolchain=["+nightly"], args=["--release", "-Zbuild-std", "--target", "x86_64-unknown-linux-gnu"], bin_subdir="x86_64-unknown-linux-gnu/release",
-                      single_package=True, env={"RUSTFLAGS": "-Zsanitizer=thread"}, run_env={"TSAN_OPTIONS": "halt_on_error=1:exitcode=66"})
+                      single_package=True, env={"RUSTFLAGS": "-Zsanitizer=thread"}, run_env={"TSAN_OPTIONS": "halt_on_error=1:exitcode=66", "VH_SANITIZER": "tsan"})
 # valgrind memcheck on the plain release binary (reaches ring / bzip2, which Miri cannot enter)
 BUILDS["memcheck"] = dict(target_dir="q", sanitizer=True, args=["--release"], bin_subdir="release", wrapper=["valgrind", "-q", "--error-exitcode=99", "--errors-for-leak-kinds=none", "--undef-value-errors=yes"],
-                          run_env={"VH_INPROC": "1"})
+                          run_env={"VH_INPROC": "1", "VH_SANITIZER": "memcheck"})
 
 # plugin flavours: a different compiler (nightly) and randomised struct layouts
 for _seed in range(1, 9):
